@@ -208,8 +208,20 @@ func tinyScopeJobs(prop, tier string) []JobSpec {
 	return nil
 }
 
+// tinyKeysJobs: bounded-exhaustive histories over the key-identity alphabet (tiny.go).
+func tinyKeysJobs(prop, tier string) []JobSpec {
+	switch prop {
+	case "C09", "C10":
+		if tier == "quick" {
+			return []JobSpec{{"tinykeyssamp", 15000}}
+		}
+		return []JobSpec{{"tinykeys", tinyKTotal(tinyKMaxLen)}}
+	}
+	return nil
+}
+
 func allJobsFor(prop, tier string) []JobSpec {
-	return append(append(jobsFor(prop, tier), tinyJobs(prop, tier)...), tinyScopeJobs(prop, tier)...)
+	return append(append(append(jobsFor(prop, tier), tinyJobs(prop, tier)...), tinyScopeJobs(prop, tier)...), tinyKeysJobs(prop, tier)...)
 }
 
 func levelFor(prop string) string {
@@ -254,6 +266,9 @@ func exhaustiveFor(prop, tier string) string {
 		} else {
 			tiny = ts
 		}
+	}
+	if (prop == "C09" || prop == "C10") && tier != "quick" {
+		tiny += fmt.Sprintf("; every history of at most 4 API calls over the %d-call key-identity alphabet of tiny.go (one type provided unnamed / named / grouped, each also with As(interface), in a root or child scope; requested as the type or the interface, unnamed / named / grouped, from both scopes), %d histories", len(tinyKAll), tinyKTotal(tinyKMaxLen))
 	}
 	if prop == "C05" {
 		if tier == "quick" {
